@@ -768,12 +768,15 @@ example : exHostI.wf = true ∧ regularB exHostI 1 exImpl = true ∧ keepsAllB e
     (substitute exHostI 1 exImpl).map (fun r => (r.wf, (r.net.node 6).kind, (r.net.node 6).ins)) =
       some (true, "NAND2", [some 4]) := by decide +kernel
 
-/-- the side condition "the designated cell is not a port" (`implOKB`) cannot be dropped from `substitute_wf`: a
-    Verilog-style feed-through `input A -> fork a -> output X` as implementation makes the port cell `A` the designated
-    cell; the host cell takes kind `input`, its copied line to the fork `u~a` (line 2) loses the fork's pin 0 to the
-    instance's input line (line 0) — regular use, but the result is not a well-formed circuit.  The real `substitute`
-    returns the same dump; `copy()` / a pickle round trip of it then connect the fork to the stale line and the output reads 0
-    instead of the input: finding D32 (corpus/C10-designated-port.json, harness class `substitute-designated-port`) -/
+/-- finding D32 and its repair.  BEFORE the repair (`substituteOld`, Model/SubstSem.lean: `substitute` with the earlier rule
+    `designated_cell = n`) a Verilog-style feed-through `input A -> fork a -> output X` as implementation made the port cell
+    `A` the designated cell: the host cell took kind `input`, its copied line to the fork `u~a` (line 2) lost the fork's
+    pin 0 to the instance's input line (line 0) — regular use, but the result was not a well-formed circuit, and `copy()` / a
+    pickle round trip of it connected the fork to the stale line so that the output read 0 instead of the input
+    (`substitute_designated_port_not_wf`, corpus/C10-designated-port.json, harness class `substitute-designated-port`).
+    SINCE the repair (`substitute`: a port is no designated cell, the instance is removed) the result is the well-formed
+    feed-through `i -> u~a -> o` (`substitute_feedthrough_repaired`); `implOKB` no longer needs the clause "the designated
+    cell is not a port" (`implShape_des_notPort`). -/
 def exFeed : NNet :=
   { net := { nodes := #[⟨"input", [], [some 0]⟩, ⟨"__fork__", [some 0], [some 1]⟩, ⟨"output", [some 1], []⟩],
              lines := #[⟨0, 0, 1, 0⟩, ⟨1, 0, 2, 0⟩], io := [0, 2] },
@@ -783,9 +786,20 @@ def exFeedHost : NNet :=
              lines := #[⟨0, 0, 1, 0⟩, ⟨1, 0, 2, 0⟩], io := [0, 2] },
     names := #["i", "u", "o"] }
 theorem substitute_designated_port_not_wf :
-    exFeed.wf = true ∧ exFeedHost.wf = true ∧ regularB exFeedHost 1 exFeed = true ∧ implOKB exFeed = false ∧
-    (substitute exFeedHost 1 exFeed).map (fun r => (r.wf, (r.net.node 1).kind, r.net.line 2, (r.net.node 3).ins)) =
+    exFeed.wf = true ∧ exFeedHost.wf = true ∧ (implShapeOld exFeed).map (·.des) = some (some 0) ∧
+    (substituteOld exFeedHost 1 exFeed).map (fun r => (r.wf, (r.net.node 1).kind, r.net.line 2, (r.net.node 3).ins)) =
       some (false, "input", ⟨1, 0, 3, 0⟩, [some 0]) := by decide +kernel
+
+/-- the repaired behaviour on the same input: no designated cell, the instance `u` is removed (the last node `o` takes its
+    index, the fork `u~a` is appended), the result `i -> u~a -> o` is well-formed and `copy()` of it has the same lines
+    (`copy_dump_eq` applies) -/
+theorem substitute_feedthrough_repaired :
+    (implShape exFeed).map (·.des) = some none ∧
+    (substitute exFeedHost 1 exFeed).map (fun r => (r.wf, r.kindNames, r.net.io)) =
+      some (true, [("input", "i"), ("output", "o"), ("__fork__", "u~a")], [0, 1]) ∧
+    (substitute exFeedHost 1 exFeed).map (fun r => (r.net.lines.toList, (copyNet r).net.lines.toList)) =
+      some ([⟨0, 0, 2, 0⟩, ⟨2, 0, 1, 0⟩], [⟨0, 0, 2, 0⟩, ⟨2, 0, 1, 0⟩]) := by
+  decide +kernel
 
 /-- the removing cases are modelled too (they are covered by `substitute_ports` and `substitute_state_perm`): with output
     pin 1 of the instance unconnected the `OR2` of `exImpl` dangles and is removed; with an implementation that ignores
